@@ -86,6 +86,7 @@ idn_result_t idn_res_encodename(idn_resconf_t ctx, idn_action_t actions, const c
 #elif defined(HAVE_LIBIDN2)
 int idn2_to_ascii_8z(const char *input, char **output, int flags) { (void) flags; return converter(input, output); }
 int idn2_lookup_ul(const char *input, char **output, int flags) { (void) flags; return converter(input, output); }
+void idn2_free(void *p) { free(p); }      /* libidn2's deallocator is free() */
 #define OKCODE 0
 #elif defined(HAVE_LIBIDN)
 #include <idna.h>
